@@ -2390,3 +2390,8 @@ V(id='c11-rule-object-step-unprotected', prop='C11', file='mpmath/calculus/inver
 V(id='c11-enter-failure-keeps-stack-entry', prop='C11', file='mpmath/ctx_mp.py',
   old="        except:\n            # __exit__ is not called when __enter__ fails\n            self.ctx.prec = self.origp.pop()\n            raise\n",
   new="        except:\n            raise\n", expect='fire:A-R4')
+
+# ---- C34 O-R10 (fix 2f2fe9f) ----
+V(id='c34-no-residual-test', prop='C34', file='mpmath/calculus/odes.py',
+  old="        if res*radius <= (n+1)*tol:\n            break\n        radius /= 2\n", new="        break\n",
+  expect='fire:O-R10:ode_taylor')
